@@ -3,6 +3,25 @@ import sys, os, json, time, re, hashlib, subprocess
 from . import pipeline, corr, fp, props, registry
 from .pipeline import VERIF, TFV, log
 
+def hand_hash(entry):
+    """hash of a hand-modelled source: 'path' = the whole file; 'path#header' = the item whose first line starts with `header`, up to
+    the first line that is a lone closing brace, with blank lines, `//` comment lines and indentation ignored (so that only a change
+    to the code of that item is a broken obligation)"""
+    if '#' not in entry:
+        return hashlib.sha256(open(os.path.join(pipeline.REPO, entry), 'rb').read()).hexdigest()
+    path, header = entry.split('#', 1)
+    out, on = [], False
+    for ln in open(os.path.join(pipeline.REPO, path), encoding='utf-8'):
+        if not on and ln.startswith(header):
+            on = True
+        if on:
+            t = ln.strip()
+            if t and not t.startswith('//'):
+                out.append(t)
+            if ln.rstrip() == '}':
+                break
+    return hashlib.sha256('\n'.join(out).encode()).hexdigest() if out else 'item-not-found'
+
 AXIOMS_OK = {'propext', 'Classical.choice', 'Quot.sound'}
 
 def known_findings():
@@ -185,7 +204,7 @@ def main_(argv):
     if spec.get('hand_sources'):
         snap = json.load(open(os.path.join(TFV, 'model', 'hand_sources.json')))
         for f in spec['hand_sources']:
-            cur = hashlib.sha256(open(os.path.join(pipeline.REPO, f), 'rb').read()).hexdigest()
+            cur = hand_hash(f)
             if snap.get(f) != cur:
                 hand_changed.append(f)
 
